@@ -429,6 +429,57 @@ def random_draws_made_by_one_line():
     return out
 
 
+def operator_pairs():
+    """the result of one operator used as the operand of another, for every ordered pair of the operators a secret
+    integer takes a literal (or a public) right operand with, and every comparison followed by ~ / to_public /
+    if_else: two operations written are two operations recorded (tenth seeding round: peephole rewrites)"""
+    SU_, PU_ = S("Secret", "UInt"), S("Public", "UInt")
+    PI = S("Public", "Int")
+    ops = ["OAdd", "OSub", "OMul", "ODiv", "OMod", "OLShift", "ORShift", "OTruncPr"]
+    amount = {"OLShift", "ORShift", "OTruncPr"}
+    out = []
+    for kind in ("literal", "public"):
+        for i, A in enumerate(ops):
+            st = [inp("x", "x", SI)]
+            if kind == "literal":
+                st += [{"k": "lit", "x": "ki", "b": "Int", "v": 3}, {"k": "lit", "x": "ku", "b": "UInt", "v": 2},
+                       {"k": "lit", "x": "ki2", "b": "Int", "v": 5}, {"k": "lit", "x": "ku2", "b": "UInt", "v": 7}]
+            else:
+                st += [inp("ki", "ki", PI), inp("ku", "ku", PU_), inp("ki2", "ki2", PI), inp("ku2", "ku2", PU_)]
+            st.append({"k": "bin", "x": "r", "op": A, "a": "x", "b": "ku" if A in amount else "ki"})
+            outs = []
+            for j, B in enumerate(ops):
+                st.append({"k": "bin", "x": f"o{j}", "op": B, "a": "r", "b": "ku2" if B in amount else "ki2"})
+                outs.append((f"o{j}", "P0", f"o{j}"))
+            out.append(prog(st, outs, ["operator-pairs", kind, A]))
+    # comparisons (secret and public operands) followed by every boolean consumer
+    st = [inp("a", "a", SI), inp("b", "b", SI), inp("c", "c", PI), inp("d", "d", PI), {"k": "random", "x": "rnd", "b": "Int"}]
+    outs = []
+    n = 0
+    for (l, r, tag) in (("a", "b", "s"), ("c", "d", "p"), ("a", "c", "m"), ("rnd", "a", "r")):
+        for cmp_ in ("OLt", "OGt", "OLe", "OGe", "OEq", "ONe"):
+            c = f"c{n}"
+            st.append({"k": "bin", "x": c, "op": cmp_, "a": l, "b": r})
+            st.append({"k": "not", "x": f"n{n}", "a": c})
+            st.append({"k": "ifelse", "x": f"i{n}", "c": c, "a": l, "b": r})
+            outs += [(f"n{n}", "P0", f"n{n}"), (f"i{n}", "P0", f"i{n}")]
+            if tag != "p":
+                st.append({"k": "topublic", "x": f"t{n}", "a": c})
+                st.append({"k": "not", "x": f"u{n}", "a": f"t{n}"})
+                outs += [(f"t{n}", "P0", f"t{n}"), (f"u{n}", "P0", f"u{n}")]
+            n += 1
+    out.append(prog(st, outs, ["operator-pairs", "comparison-then-consumer"]))
+    # the same value as both operands, and an operation applied twice
+    st = [inp("a", "a", SI), inp("q", "q", S("Secret", "Bool")),
+          {"k": "bin", "x": "e0", "op": "OSub", "a": "a", "b": "a"}, {"k": "bin", "x": "e1", "op": "OEq", "a": "a", "b": "a"},
+          {"k": "bin", "x": "e2", "op": "ODiv", "a": "a", "b": "a"}, {"k": "bin", "x": "e3", "op": "OLt", "a": "a", "b": "a"},
+          {"k": "not", "x": "e4", "a": "q"}, {"k": "not", "x": "e5", "a": "e4"},
+          {"k": "topublic", "x": "e6", "a": "a"}, {"k": "bin", "x": "e7", "op": "OPublicEquals", "a": "a", "b": "a"},
+          {"k": "ifelse", "x": "e8", "c": "q", "a": "a", "b": "a"}, {"k": "bin", "x": "e9", "op": "OXor", "a": "q", "b": "q"}]
+    out.append(prog(st, [(f"e{i}", "P0", f"e{i}") for i in range(10)], ["operator-pairs", "same-operand-twice"]))
+    return out
+
+
 def objects_same_fields_other_order():
     """two objects (and two n-tuples) with the same field names and types written in different orders, mixed secrecy"""
     PI = S("Public", "Int")
@@ -553,4 +604,4 @@ def all_families():
             dup_inputs("same-party-one-dead"), literal_array_inner(), object_key_order(), literal_divisions(),
             closure_factory(), kwargs_reordered(), unzip_compound(), reduce_public_seed(), rebound_closure_variable(), explicit_types_reordered(), objects_same_fields_other_order(), dup_inputs_one_line('comprehension'), dup_inputs_one_line('helper'), matrix_params_two_element_types(),
             declassifying_function_mapped(), row_function_over_two_matrices(), array_returning_function(), call_chain_depth_four(),
-            operations_shared_between_tables(), same_output_name_to_several_parties(), attribute_like_field_names()] + random_draws_made_by_one_line() + rejected_functions() + wrong_arity_calls()
+            operations_shared_between_tables(), same_output_name_to_several_parties(), attribute_like_field_names()] + random_draws_made_by_one_line() + operator_pairs() + rejected_functions() + wrong_arity_calls()
